@@ -190,6 +190,11 @@ func encodeFindNodes(ds []uint16) *portalwire.FindNodes {
 	return fn
 }
 
+// checkedAtCurrentEndpoint: what the history of the case says about each table node, independent of the flag the
+// table keeps: a node counts as liveness-checked when it was added as such and its endpoint has not moved since
+// (nothing in a case ever answers a liveness check, so a moved node stays unverified).
+var checkedAtCurrentEndpoint map[enode.ID]bool
+
 func checkNodesReply(reply []byte, self *enode.Node, before portalwire.VerifTableSnap, ds []uint16, asker net.IP, c *stats.Case) error {
 	if len(reply) > maxTalkRespBody {
 		return fmt.Errorf("NODES reply body is %d bytes, more than the %d that fit one discv5 packet", len(reply), maxTalkRespBody)
@@ -262,6 +267,9 @@ func checkNodesReply(reply []byte, self *enode.Node, before portalwire.VerifTabl
 		if !ent.Live {
 			return fmt.Errorf("record %d (%x) was never liveness-checked", i, id[:4])
 		}
+		if ok, known := checkedAtCurrentEndpoint[id]; known && !ok {
+			return fmt.Errorf("record %d (%x, %v) is offered although the endpoint it names was never liveness-checked (the node moved there with a newer record)", i, id[:4], ent.IP)
+		}
 		if seen[id] {
 			// two requested distances covered by the same bucket (all distances <= 239 share bucket 0) list the
 			// bucket twice; the statement does not forbid that, so it is only counted
@@ -327,6 +335,20 @@ func runC11Resp(p c11Resp, c *stats.Case) error {
 	}
 	defer b.Stop()
 	before := fillTable(b, p.Table)
+	checkedAtCurrentEndpoint = map[enode.ID]bool{}
+	dupID := map[enode.ID]bool{}
+	for i, s := range p.Table {
+		id := specNode(b.Node().ID(), i, s).ID()
+		if _, again := checkedAtCurrentEndpoint[id]; again || dupID[id] {
+			// two specs denote the same node (ids close to the local id have few free bits): what the table keeps
+			// then depends on the order of arrival; such nodes are judged by the table's flag alone
+			delete(checkedAtCurrentEndpoint, id)
+			dupID[id] = true
+			continue
+		}
+		checkedAtCurrentEndpoint[id] = s.Live && !s.Moved
+	}
+	defer func() { checkedAtCurrentEndpoint = nil }()
 	c.Class("asker:" + p.AskerIP)
 	ip := askerIP(p.AskerIP)
 	reply, err := b.P.VerifHandleFindNodes(&net.UDPAddr{IP: ip, Port: 4444}, encodeFindNodes(p.Distances))
